@@ -1,9 +1,9 @@
 (* C10 -- slicing, stacking and concatenating areas commute with their coordinates.
    Only statements here; proofs live in Proofs/C10_*.v.  [gen_area_getitem] is regenerated from
    /repo's AreaDefinition.__getitem__ on every run (Gen/GenC10.v). *)
-From Coq Require Import Reals ZArith List Lia Bool.
+From Coq Require Import Reals ZArith List Lia Lra Bool.
 From PR Require Import Base.Num Base.RNum Base.Slice Model.Grid Model.SliceArea Model.Stack Gen.GenC10
-     Proofs.C10_list Proofs.C10_slice Proofs.C10_stack.
+     Proofs.C10_list Proofs.C10_slice Proofs.C10_stack Proofs.C10_main.
 Import ListNotations.
 Open Scope Z_scope.
 
@@ -15,7 +15,7 @@ Example C10_ex_sel : sel_ok ex_area ex_key. Proof. unfold sel_ok; cbn; lia. Qed.
 
 (* the regenerated __getitem__ is the hand-written model, for every area and key (over the reals) *)
 Theorem C10_getitem_translation : forall g key, gen_area_getitem RO g key = area_getitem RO g key.
-Proof. exact gen_getitem_eq. Qed.
+Proof. exact main_getitem_translation. Qed.
 Print Assumptions C10_getitem_translation.
 
 (* coords(area[key]) = coords(area)[key]: for every area with >= 1 row and column and every key of two
@@ -27,22 +27,13 @@ Theorem C10_slice_coords_commute : forall (C : Type) (inv : R -> R -> C) g key, 
   gvec_y RO (gen_area_getitem RO g key) = np_slice (fst key) (gvec_y RO g) /\
   grid_of inv (gvec_x RO (gen_area_getitem RO g key)) (gvec_y RO (gen_area_getitem RO g key)) =
     np_slice2 key (grid_of inv (gvec_x RO g) (gvec_y RO g)).
-Proof.
-  intros C inv g key W S. rewrite gen_getitem_eq.
-  destruct (getitem_vectors g key W S) as [Hx Hy]. repeat split; try assumption. apply getitem_coords; assumption.
-Qed.
+Proof. exact main_slice_coords_commute. Qed.
 Print Assumptions C10_slice_coords_commute.
 (* pointwise form: pixel (r, c) of the slice has the projection coordinates of pixel (ystart + r, xstart + c) *)
 Theorem C10_slice_coords_pointwise : forall g ys xs r c, wf_g g -> sel_ok g (ys, xs) ->
   proj_x RO (g_area (gen_area_getitem RO g (ys, xs))) c = proj_x RO (g_area g) (sstart (indices xs (gwidth g)) + c) /\
   proj_y RO (g_area (gen_area_getitem RO g (ys, xs))) r = proj_y RO (g_area g) (sstart (indices ys (gheight g)) + r).
-Proof.
-  intros g ys xs r c W [Sy Sx]. cbn [fst snd] in *. destruct W as [Hw Hh].
-  rewrite gen_getitem_eq, getitem_area by (split; assumption).
-  pose proof (win_of_indices ys (gheight g) ltac:(lia) Sy) as (_ & Hy & _).
-  pose proof (win_of_indices xs (gwidth g) ltac:(lia) Sx) as (_ & Hx & _).
-  split; [apply sl_proj_x; exact Hx|apply sl_proj_y; exact Hy].
-Qed.
+Proof. exact main_slice_coords_pointwise. Qed.
 Print Assumptions C10_slice_coords_pointwise.
 Example C10_slice_coords_ex :
   gvec_y RO (gen_area_getitem RO ex_area ex_key) = np_slice (fst ex_key) (gvec_y RO ex_area) /\
@@ -59,19 +50,14 @@ Theorem C10_slice_shape : forall g key, wf_g g -> sel_ok g key ->
   forall (A : Type) (m : list (list A)), zlen m = gheight g -> rect m (gwidth g) ->
     zlen (np_slice2 key m) = gheight (gen_area_getitem RO g key) /\
     rect (np_slice2 key m) (gwidth (gen_area_getitem RO g key)).
-Proof.
-  intros g key W S. rewrite gen_getitem_eq. destruct (getitem_shape g key W S) as [H1 H2].
-  repeat split; try assumption; destruct (shape_np_slice2 key m (gwidth g) H0) as [L Rc].
-  - rewrite L, H, H1. reflexivity.
-  - rewrite H2. exact Rc.
-Qed.
+Proof. exact main_slice_shape. Qed.
 Print Assumptions C10_slice_shape.
 
 (* crop_offset records the offset of the slice inside its parent, added to the parent's own *)
 Theorem C10_crop_offset_acc : forall g ys xs,
   g_off (gen_area_getitem RO g (ys, xs)) =
   (fst (g_off g) + sstart (indices ys (gheight g)), snd (g_off g) + sstart (indices xs (gwidth g))).
-Proof. intros. rewrite gen_getitem_eq. apply getitem_off. Qed.
+Proof. exact main_crop_offset_acc. Qed.
 Print Assumptions C10_crop_offset_acc.
 
 (* slicing composes like array slicing: for EVERY chain of successive keys (each selecting >= 1 row and
@@ -86,17 +72,7 @@ Theorem C10_slice_compose : forall keys g, wf_g g -> chain_ok (gheight g) (gwidt
   1 <= slen ky /\ 1 <= slen kx /\
   forall (A : Type) (m : list (list A)), zlen m = gheight g -> rect m (gwidth g) ->
     fold_left (fun acc k => np_slice2 k acc) keys m = map (take_slice kx) (take_slice ky m).
-Proof.
-  intros keys g W C ky kx.
-  assert (E : fold_left (gen_area_getitem RO) keys g = fold_left (area_getitem RO) keys g).
-  { clear. revert g. induction keys as [|k r IH]; intros g; cbn; [reflexivity|]. rewrite gen_getitem_eq. apply IH. }
-  rewrite E, gen_getitem_eq, (getitem_chain keys g W C). fold ky kx.
-  pose proof W as [Hw Hh].
-  destruct (chain_compose_sel keys (gheight g) (gwidth g) ltac:(lia) ltac:(lia) C Hh Hw) as [Sy Sx]. fold ky kx in Sy, Sx.
-  split; [reflexivity|]. split.
-  - rewrite getitem_off. rewrite !indices_okey by (apply compose_all_within; lia). reflexivity.
-  - repeat split; try assumption. intros A m Hm Rm. unfold ky, kx. rewrite <- Hm. apply np_slice2_chain. exact Rm.
-Qed.
+Proof. exact main_slice_compose. Qed.
 Print Assumptions C10_slice_compose.
 Example C10_chain_ex : chain_ok (gheight ex_area) (gwidth ex_area)
   [ex_key; (mk_oslice None (Some (-1)), mk_oslice (Some (-2)) (Some 7))].
@@ -107,7 +83,7 @@ Theorem C10_split_concat_id : forall g k, wf_g g -> 1 <= k <= gheight g - 1 ->
   exists m, concatenate_area_defs RO (gen_area_getitem RO g (rows_key 0 k))
                                      (gen_area_getitem RO g (rows_key k (gheight g))) = Some m /\
             g_area m = g_area g /\ g_crs m = g_crs g.
-Proof. intros g k W [H1 H2]. rewrite !gen_getitem_eq. apply split_concat; assumption. Qed.
+Proof. exact main_split_concat_id. Qed.
 Print Assumptions C10_split_concat_id.
 (* the other member order (lower part first); hypothesis H_first_test_fails: the code's first test
    "area1 is above area2" (numpy.isclose(area1.ymin, area2.ymax)) fails, i.e. the y-extent of the
@@ -118,26 +94,23 @@ Theorem C10_split_concat_id_rev_if : forall g k, wf_g g -> 1 <= k <= gheight g -
   exists m, concatenate_area_defs RO (gen_area_getitem RO g (rows_key k (gheight g)))
                                      (gen_area_getitem RO g (rows_key 0 k)) = Some m /\
             g_area m = g_area g /\ g_crs m = g_crs g.
-Proof.
-  intros g k W [H1 H2]. rewrite !gen_getitem_eq. intros Hn. pose proof W as [Hw Hh].
-  destruct (concat_windows_rev g 0 k (gheight g) _ _
-              (rows_key_area g 0 k W ltac:(lia) ltac:(lia) ltac:(lia))
-              (rows_key_area g k (gheight g) W ltac:(lia) ltac:(lia) ltac:(lia))
-              ltac:(rewrite !rows_key_crs; reflexivity) Hn) as (m & E & Ea & Ec).
-  exists m. split; [exact E|]. rewrite Ea, Ec, rows_key_crs, sl_area_full by exact W. split; reflexivity.
-Qed.
+Proof. exact main_split_concat_id_rev_if. Qed.
 Print Assumptions C10_split_concat_id_rev_if.
+Example C10_split_ex : wf_g ex_area /\ 1 <= 1 <= gheight ex_area - 1 /\
+  isclose RO (ymin (g_area (gen_area_getitem RO ex_area (rows_key 1 (gheight ex_area)))))
+             (ymax (g_area (gen_area_getitem RO ex_area (rows_key 0 1)))) = false.
+Proof.
+  split; [exact C10_ex_wf|]. split; [cbn; lia|]. rewrite !gen_getitem_eq. cbn.
+  apply isclose_far. replace (0 - 30)%R with (- (30))%R by lra.
+  rewrite Rabs_Ropp. rewrite !Rabs_pos_eq by lra. lra.
+Qed.
 (* any number of vertically adjacent parts (cut rows 0 < k1 < k2 < ... < h), appended to a
    StackedAreaDefinition one after the other: they merge into ONE member equal to the original, which
    squeeze() returns (induction over the list of cuts) *)
 Theorem C10_stack_split_id : forall g cuts, wf_g g -> cuts_ok 0 cuts (gheight g) ->
   exists s m, stack_append_all RO stack_empty (parts RO g 0 cuts) = Some s /\ stack_squeeze s = Some m /\
               g_area m = g_area g /\ g_crs m = g_crs g /\ stack_height s = gheight g.
-Proof.
-  intros g cuts W C. destruct (stack_parts g cuts W C) as (m & E & Ea & Ec).
-  eexists. exists m. split; [exact E|]. repeat split; try assumption.
-  unfold stack_height, stack_defs, gheight; cbn. rewrite Ea. lia.
-Qed.
+Proof. exact main_stack_split_id. Qed.
 Print Assumptions C10_stack_split_id.
 Example C10_cuts_ex : cuts_ok 0 [1; 2] (gheight ex_area). Proof. cbn. lia. Qed.
 
@@ -149,19 +122,18 @@ Theorem C10_stacked_lonlats_concat : forall (C : Type) (inv : R -> R -> C) (defs
   stacked_lonlats RO inv None defs = concat (map (member_grid inv) defs) /\
   forall rs cs, 0 <= sstart rs -> 0 <= sstop rs ->
     stacked_lonlats RO inv (Some (rs, cs)) defs = np_slice2 (okey rs, cs) (concat (map (member_grid inv) defs)).
-Proof.
-  intros C inv defs w F Hw. split; [apply (stacked_lonlats_all inv defs w F Hw)|].
-  intros rs cs H1 H2. apply stacked_lonlats_data_slice; try assumption.
-  revert F. apply Forall_impl. intros d [H _]. lia.
-Qed.
+Proof. exact main_stacked_lonlats_concat. Qed.
 Print Assumptions C10_stacked_lonlats_concat.
 (* the same at list level, for members given by arbitrary 2-D arrays *)
 Theorem C10_stacked_rows_concat : forall (A : Type) (ms : list (list (list A))),
   (rect (concat ms) (first_width ms) -> stack_lonlats None ms = concat ms) /\
   forall rs cs, 0 <= sstart rs -> 0 <= sstop rs ->
     stack_lonlats (Some (rs, cs)) ms = np_slice2 (okey rs, cs) (concat ms).
-Proof. intros A ms. split; [apply stack_lonlats_all|intros; apply stack_lonlats_data_slice; assumption]. Qed.
+Proof. exact main_stacked_rows_concat. Qed.
 Print Assumptions C10_stacked_rows_concat.
+Example C10_stacked_members_ex :
+  Forall (fun d => 1 <= gheight d /\ gwidth d = 4) [ex_area; gen_area_getitem RO ex_area (rows_key 1 3)].
+Proof. rewrite gen_getitem_eq. repeat constructor; cbn; lia. Qed.
 Example C10_stacked_ex :
   stack_lonlats (Some (mk_slice 2 5, mk_oslice None None)) [[[1]; [2]; [3]]; [[4]; [5]; [6]]] = [[3]; [4]; [5]].
 Proof. reflexivity. Qed.
@@ -187,19 +159,7 @@ Theorem C10_swath_slice_concat : forall (A : Type) (s : swath A) w,
   (* slicing a concatenation = concatenating the members' local slices *)
   (forall (t : swath A) rs cs, 0 <= sstart rs -> 0 <= sstop rs ->
      fst (swath_getitem (okey rs, cs) (swath_concat s t)) = stack_rows rs cs 0 [fst s; fst t]).
-Proof.
-  intros A s w R1 R2 E. repeat split.
-  - apply (shape_np_slice2 key (fst s) w R1).
-  - apply (shape_np_slice2 key (fst s) w R1).
-  - intros i j d Hi Hj. apply (nth_np_slice2 key (fst s) w i j d R1 Hi Hj).
-  - intros keys.
-    assert (G : forall (t : swath A), fst (fold_left (fun acc k => swath_getitem k acc) keys t) =
-                fold_left (fun acc k => np_slice2 k acc) keys (fst t)).
-    { induction keys as [|k r IH]; intros t; cbn; [reflexivity|]. rewrite IH. reflexivity. }
-    rewrite G. apply np_slice2_chain. exact R1.
-  - intros k Hk. apply (swath_split_concat s k w R1 R2 E Hk).
-  - intros t rs cs H1 H2. apply swath_concat_slice; assumption.
-Qed.
+Proof. exact main_swath_slice_concat. Qed.
 Print Assumptions C10_swath_slice_concat.
 Example C10_swath_ex :
   swath_getitem (mk_oslice (Some (-2)) None, mk_oslice None (Some 1)) ([[1; 2]; [3; 4]; [5; 6]], [[7; 8]; [9; 10]; [11; 12]])
